@@ -655,7 +655,7 @@ def subgrid_real_cases(ctx):
 
 
 def run(ctx):
-    ctx.prove(["PvModel.Props.C19", "PvModel.Props.T19"])
+    ctx.prove(["PvModel.Props.C19", "PvModel.Props.T19", "PvModel.Props.R19"])
     WORK.mkdir(exist_ok=True)
     run_grid_suite(ctx)
     run_tuner_suite(ctx)
